@@ -53,6 +53,9 @@ def generate(rng, tier):
         if kind == "datetime" and rng.random() < 0.35:
             rkind = rng.choice(["datetime_ns", "datetime_ns", "datetime_ms"])      # the same instants held in another unit on the right side
             tags.add("datetime-units-differ")
+        if kind == "timedelta" and rng.random() < 0.4:
+            kind, rkind = "timedelta_ms", "timedelta"          # whole-millisecond durations: milliseconds on the left, microseconds on the right
+            tags.add("datetime-units-differ")
         if kind == "date" and rng.random() < 0.25:
             rkind = "datetime"          # dates against datetimes (at midnight)
             tags.add("datetime-units-differ")
